@@ -133,6 +133,13 @@ CHECKS = {
              "Read-back *equality* on 2^24 colours is numeric and not decided.",
         ref="DESIGN 3/C06, 4/F-C06",
         note=TB + "; acceptance ranges of the reader as established under C07/C14"),
+    "C09": dict(
+        technique="static effect analysis (file-system primitives reachable from the CLI entry, with conditional-I/O summaries) + provenance of every write target + lossless-parse flag audit + store census and reaching-definition origins of every .content/.value write-back",
+        category="other",
+        text="Decides that the command's only file effects are open(<stem>_cm<suffix>, 'w') and the constant non-.css report, that inputs are opened read-only, that every re-serialised parse keeps whitespace and comments, that only update_decl_value writes a declaration "
+             "and every .content write-back is the unfiltered list parsed from that same node, and that the output is the serialisation of this file's own rules. Holds for every stylesheet; the tests only grep for substrings. tinycss2's serialise-after-parse identity is assumed, not decided.",
+        ref="DESIGN 3/C09",
+        note=TB + "; tinycss2 keeps whitespace/comment tokens when the skip_* flags are False and serialises untouched tokens verbatim"),
 }
 
 NOT_APPLICABLE = {
